@@ -150,15 +150,54 @@ func parserEntryFuncs(e *Env, rule, pkg string) []*ssa.Function {
 		if !ok || f.Object() == nil || !f.Object().Exported() || seen[f] || len(f.Blocks) == 0 {
 			continue
 		}
-		for _, p := range f.Params {
-			tp, ok := p.Type().(*types.TypeParam)
-			if !ok {
-				continue
+		if len(inputParams(f)) > 0 {
+			seen[f] = true
+			out = append(out, f)
+		}
+	}
+	return out
+}
+
+// inputParams: the indices of fn's text parameters — those of a ParserInput-constrained type parameter; when fn
+// declares such type parameters but takes its texts as plain string / []byte (sem.CompareVersion), those.
+func inputParams(f *ssa.Function) []int {
+	isPI := func(t types.Type) bool {
+		tp, ok := t.(*types.TypeParam)
+		if !ok {
+			return false
+		}
+		nt, ok := tp.Constraint().(*types.Named)
+		return ok && nt.Obj().Name() == "ParserInput"
+	}
+	var out []int
+	for i, p := range f.Params {
+		if isPI(p.Type()) {
+			out = append(out, i)
+		}
+	}
+	if len(out) > 0 {
+		return out
+	}
+	declares := false
+	if tps := f.TypeParams(); tps != nil {
+		for i := 0; i < tps.Len(); i++ {
+			if isPI(tps.At(i)) {
+				declares = true
 			}
-			if nt, ok := tp.Constraint().(*types.Named); ok && nt.Obj().Name() == "ParserInput" {
-				seen[f] = true
-				out = append(out, f)
-				break
+		}
+	}
+	if !declares {
+		return nil
+	}
+	for i, p := range f.Params {
+		switch t := p.Type().Underlying().(type) {
+		case *types.Basic:
+			if t.Info()&types.IsString != 0 {
+				out = append(out, i)
+			}
+		case *types.Slice:
+			if b, ok := t.Elem().Underlying().(*types.Basic); ok && b.Kind() == types.Uint8 {
+				out = append(out, i)
 			}
 		}
 	}
@@ -395,15 +434,14 @@ func ruleLimit(e *Env, ruleName string, pkgs ...string) {
 		}
 		e.Flow(func(c *flow.Ctx) {
 			for _, f := range fs {
-				// the input is the first parameter of a ParserInput type parameter (index 0 in every recorded entry)
-				pi := 0
-				for i, p := range f.Params {
-					if _, ok := p.Type().(*types.TypeParam); ok {
-						pi = i
-						break
-					}
+				// every text parameter (the compare and latest helpers take two); index 0 in the recorded single-input entries
+				pis := inputParams(f)
+				if len(pis) == 0 {
+					pis = []int{0}
 				}
-				c.RuleLimitFirst(f, pi, sent, 0)
+				for _, pi := range pis {
+					c.RuleLimitFirst(f, pi, sent, 0)
+				}
 			}
 			c.RuleLimitZero(e.PkgFuncs(pkg), "MaxInputLength")
 			c.RuleSentinelOnlyInGuards(sent, e.PkgFuncs(pkg))
